@@ -19,7 +19,7 @@ CONSTANTS MaxDecls,     \* bound on declarations per kind
           Tricky,       \* TRUE: identifier pools contain names that start with keywords (i32x, doubleValue, voidable ...)
           EmitAt,       \* programs are emitted after this many steps
           WithBreaks,   \* TRUE: the last step of a walk may be one invalidating edit
-          Focus,        \* "all", or "enums" / "scopes" / "typedefs" / "enumrefs" / "annotations" / "fields" / "breaks" / "uses": restrict the builder to one family of declarations
+          Focus,        \* "all", or "enums" / "scopes" / "typedefs" / "enumrefs" / "annotations" / "fields" / "breaks" / "uses" / "consts": restrict the builder to one family of declarations
           Hard          \* "none", or one family of valid constructs the generators are known to mishandle; the last step of a
                         \* walk then adds that construct (C11 keeps these apart from all other programs so that a recorded
                         \* finding cannot hide a new one): "keywords" = identifiers that are reserved words of a target
@@ -32,7 +32,7 @@ R(n) == [k |-> "ref", n |-> n]
 L(t) == [k |-> "list", v |-> t]
 S(t) == [k |-> "set", v |-> t]
 M(a, b) == [k |-> "map", key |-> a, v |-> b]
-BaseTypes == {B("bool"), B("byte"), B("i16"), B("i32"), B("i64"), B("double"), B("string"), B("binary")}
+BaseTypes == {B("bool"), B("byte"), B("i8"), B("i16"), B("i32"), B("i64"), B("double"), B("string"), B("binary")}
 \* ---- identifier pools ----
 TypeNames == IF Tricky THEN {"Thing", "i32x", "stringy", "voidy", "onewayT", "optionalT"} ELSE {"Thing", "my_type", "Other", "Rec", "T2"}
 FieldNames == IF Tricky THEN {"a", "count", "doubleValue", "optionalThing", "_x", "voidable"} ELSE {"a", "count", "value", "thing", "_x", "name2"}
@@ -72,6 +72,49 @@ Defaults(t) == {[k |-> "none"]} \cup
      [] t = M(B("string"), B("i32")) -> {[k |-> "map", pairs |-> <<<<[k |-> "str", s |-> "a"], [k |-> "int", i |-> 1]>>>>]}
      [] OTHER -> {})
 Reqs == {"required", "optional", "default"}
+\* ---- literals of every type (constants, and defaults of fields of struct / container type): the focus "consts" ----
+\* a struct-valued literal is written as a map from field names to values; a set as a list; an enum value as Enum.VALUE
+IntL(i) == [k |-> "int", i |-> i]
+StrL(s) == [k |-> "str", s |-> s]
+BaseLits(n) == CASE n \in {"byte", "i8"} -> {IntL(7), IntL(-128)}
+                 [] n = "i16" -> {IntL(300)}
+                 [] n = "i32" -> {IntL(5), IntL(-7)}
+                 [] n = "i64" -> {IntL(0), IntL(2147483647)}
+                 [] n = "bool" -> {[k |-> "bool", b |-> TRUE], [k |-> "bool", b |-> FALSE]}
+                 [] n = "double" -> {[k |-> "double", s |-> "1.5"], IntL(2)}
+                 [] n \in {"string", "binary"} -> {StrL("dflt"), StrL("")}
+                 [] OTHER -> {}
+RECURSIVE Lits(_, _, _)
+StructLits(q, s, fuel) ==
+  LET fs == q.structs[s].fields
+      one(i) == CHOOSE v \in Lits(q, fs[i].t, fuel - 1) : TRUE
+      lit(F) == [k |-> "map", pairs |-> [j \in 1..Len(SetToSeq(F)) |-> <<StrL(fs[SetToSeq(F)[j]].name), one(SetToSeq(F)[j])>>]]
+      ok == {i \in Idx(fs) : Lits(q, fs[i].t, fuel - 1) # {}}
+  IN IF q.structs[s].kind = "union" THEN {lit({i}) : i \in ok}
+     ELSE {lit(ok), lit({i \in ok : fs[i].req # "optional"}), lit({i \in ok : fs[i].req = "required"})}
+Lits(q, t, fuel) ==
+  IF fuel = 0 THEN {}
+  ELSE CASE t.k = "base" -> BaseLits(t.n)
+    [] t.k \in {"list", "set"} -> LET xs == Lits(q, t.v, fuel - 1) IN
+           {[k |-> "list", items |-> <<>>]} \cup {[k |-> "list", items |-> <<x>>] : x \in xs}
+           \cup (IF Cardinality(xs) >= 2 THEN {[k |-> "list", items |-> SetToSeq(xs)]} ELSE {})
+    [] t.k = "map" -> LET ks == Lits(q, t.key, fuel - 1) vs == Lits(q, t.v, fuel - 1) IN
+           {[k |-> "map", pairs |-> <<>>]} \cup {[k |-> "map", pairs |-> <<<<a, b>>>>] : a \in ks, b \in vs}
+           \cup (IF Cardinality(ks) >= 2 /\ vs # {} THEN {[k |-> "map", pairs |-> [j \in 1..Cardinality(ks) |-> <<SetToSeq(ks)[j], CHOOSE b \in vs : TRUE>>]]} ELSE {})
+    [] t.k = "ref" ->
+           IF \E e \in Idx(q.enums) : q.enums[e].name = t.n
+           THEN LET e == CHOOSE e \in Idx(q.enums) : q.enums[e].name = t.n IN
+                {[k |-> "id", s |-> t.n \o "." \o q.enums[e].vals[v].name, e |-> t.n, v |-> q.enums[e].vals[v].name] : v \in Idx(q.enums[e].vals)}
+           ELSE IF \E s \in Idx(q.structs) : q.structs[s].name = t.n
+           THEN StructLits(q, CHOOSE s \in Idx(q.structs) : q.structs[s].name = t.n, fuel)
+           ELSE IF \E i \in Idx(q.typedefs) : q.typedefs[i].name = t.n
+           THEN Lits(q, q.typedefs[CHOOSE i \in Idx(q.typedefs) : q.typedefs[i].name = t.n].t, fuel - 1)
+           ELSE IF t.n \in {"inc.Ext", "inc.ExtS"} THEN {[k |-> "map", pairs |-> <<<<StrL("a"), IntL(1)>>>>], [k |-> "map", pairs |-> <<>>]}
+           ELSE IF t.n \in {"inc.ExtE", "inc.ExtAlias"} THEN {[k |-> "id", s |-> "inc.ExtE.Q", e |-> "inc.ExtE", v |-> "Q"]}
+           ELSE IF t.n = "inc.Thing" THEN {IntL(9)}
+           ELSE IF t.n = "inc.ExtL" THEN {[k |-> "list", items |-> <<[k |-> "id", s |-> "inc.ExtE.P", e |-> "inc.ExtE", v |-> "P"]>>]}
+           ELSE {}
+    [] OTHER -> {}
 \* ---- derived facts a parser must report ----
 \* Thrift: the first value is 0 unless given; every value without an explicit number is the previous value + 1
 RECURSIVE NumberFrom(_, _, _)
@@ -98,7 +141,7 @@ Mentions(t, n) == \/ t.k = "ref" /\ t.n = n
                   \/ t.k = "map" /\ (Mentions(t.key, n) \/ Mentions(t.v, n))
 NoTypedefCycle(q) == \A i \in Idx(q.typedefs) : ~Reaches(q, q.typedefs[i].name, q.typedefs[i].name, 4) /\ ~Mentions(q.typedefs[i].t, q.typedefs[i].name)
 ExceptionNames(q) == {q.structs[i].name : i \in {j \in Idx(q.structs) : q.structs[j].kind = "exception"}}
-DefaultFits(f) == f.dflt \in Defaults(f.t) \/ f.dflt.k = "id"
+DefaultFits(f) == f.dflt \in Defaults(f.t) \/ f.dflt.k = "id" \/ Focus = "consts"
 Valid(p) ==
   /\ ~p.badinclude /\ NoTypedefCycle(p)
   /\ \A i \in Idx(p.typedefs) : p.typedefs[i].t \in Types(p)
@@ -112,7 +155,7 @@ Valid(p) ==
   /\ \A i \in Idx(p.structs) : FieldsOK(p, p.structs[i].fields)
   /\ \A i \in Idx(p.enums) : /\ UniqueNames(p.enums[i].vals)
         /\ LET nb == EnumNumbering(p.enums[i].vals) IN \A a, b \in Idx(nb) : a # b => nb[a].value # nb[b].value
-  /\ \A i \in Idx(p.consts) : p.consts[i].t \in Types(p) /\ (p.consts[i].v \in Defaults(p.consts[i].t) \/ p.consts[i].v.k = "id")
+  /\ \A i \in Idx(p.consts) : p.consts[i].t \in Types(p) /\ (p.consts[i].v \in Defaults(p.consts[i].t) \/ p.consts[i].v.k = "id" \/ Focus = "consts")
   /\ \A i \in Idx(p.scopes) : UniqueNames(p.scopes[i].ops) /\ \A o \in Idx(p.scopes[i].ops) : p.scopes[i].ops[o].t \in Types(p)
   /\ \A i \in Idx(p.services) : /\ UniqueNames(p.services[i].methods)
         /\ \A m \in Idx(p.services[i].methods) : LET mm == p.services[i].methods[m] IN
@@ -144,7 +187,23 @@ BreakBase == [AnnBase EXCEPT !.structs = <<[kind |-> "struct", name |-> "Rec", a
 \* type of the pool is used once as the only argument, the only result or the only operation of an otherwise empty user
 UsesBase == [EnumRefsBase EXCEPT !.include = TRUE, !.tree = TRUE,
                                  !.services = <<[name |-> "Svc", extends |-> "", methods |-> <<[name |-> "get", oneway |-> FALSE, ret |-> <<>>, args |-> <<>>, throws |-> <<>>, anns |-> 0]>>]>>]
-Init == /\ p = (IF Focus = "uses" THEN UsesBase ELSE IF Focus = "enumrefs" THEN EnumRefsBase ELSE IF Focus = "annotations" THEN AnnBase ELSE IF Focus = "breaks" THEN BreakBase
+\* the focus "consts": one step from a program with an enum, a struct with fields of every requiredness (a scalar, an optional
+\* scalar, an enum, a union and a list of itself), a union, an exception and the included file, a constant - or a field with a
+\* default - of every type of the pool with every literal of Lits
+ConstsBase == [EnumRefsBase EXCEPT !.include = TRUE,
+    !.structs = <<[kind |-> "union", name |-> "my_type", ann |-> FALSE, fields |->
+                     <<[id |-> 1, req |-> "default", t |-> B("i32"), name |-> "a", dflt |-> [k |-> "none"]],
+                       [id |-> 2, req |-> "default", t |-> B("string"), name |-> "value", dflt |-> [k |-> "none"]]>>],
+                  [kind |-> "exception", name |-> "Other", ann |-> FALSE, fields |->
+                     <<[id |-> 1, req |-> "default", t |-> B("string"), name |-> "name2", dflt |-> [k |-> "none"]]>>],
+                  [kind |-> "struct", name |-> "Rec", ann |-> FALSE, fields |->
+                     <<[id |-> 1, req |-> "required", t |-> B("i32"), name |-> "count", dflt |-> [k |-> "none"]],
+                       [id |-> 2, req |-> "optional", t |-> B("string"), name |-> "name2", dflt |-> [k |-> "none"]],
+                       [id |-> 3, req |-> "optional", t |-> B("i32"), name |-> "a", dflt |-> [k |-> "none"]],
+                       [id |-> 4, req |-> "default", t |-> R("Color"), name |-> "thing", dflt |-> [k |-> "none"]],
+                       [id |-> 5, req |-> "optional", t |-> R("my_type"), name |-> "value", dflt |-> [k |-> "none"]]>>],
+                  [kind |-> "struct", name |-> "Holder", ann |-> FALSE, fields |-> <<>>]>>]
+Init == /\ p = (IF Focus = "consts" THEN ConstsBase ELSE IF Focus = "uses" THEN UsesBase ELSE IF Focus = "enumrefs" THEN EnumRefsBase ELSE IF Focus = "annotations" THEN AnnBase ELSE IF Focus = "breaks" THEN BreakBase
                 ELSE IF Focus = "fields" THEN [EnumRefsBase EXCEPT !.include = TRUE, !.tree = TRUE] ELSE Empty)
         /\ steps = 0 /\ broken = "none"
 Fields(p0, n, kind) ==
@@ -180,6 +239,14 @@ AddEnumConst == /\ Len(p.consts) < MaxDecls + 1 /\ ~\E i \in Idx(p.consts) : p.c
                      /\ p.enums[e].vals # <<>>
                      /\ p' = [p EXCEPT !.consts = Append(@, [name |-> n, t |-> R(p.enums[e].name),
                                                             v |-> [k |-> "id", s |-> p.enums[e].name \o "." \o p.enums[e].vals[1].name]])]
+\* (focus "consts") a constant of any type of the pool with any literal of that type
+AddLitConst == p.consts = <<>> /\ \E t \in Types(p) :
+                 \E v \in Lits(p, t, 4) :
+                   p' = [p EXCEPT !.consts = Append(@, [name |-> "MAX", t |-> t, v |-> v])]
+\* (focus "consts") a field of the last struct with such a literal as its default
+AddLitField == p.structs[Len(p.structs)].fields = <<>> /\ \E t \in Types(p), r \in {"default", "optional"} :
+                 \E v \in Lits(p, t, 4) :
+                   p' = [p EXCEPT !.structs[Len(p.structs)].fields = Append(@, [id |-> 1, req |-> r, t |-> t, name |-> "a", dflt |-> v])]
 AddStruct == /\ Len(p.structs) < MaxDecls
              /\ \E n \in TypeNames \ Declared(p), k \in {"struct", "union", "exception"} :
                   p' = [p EXCEPT !.structs = Append(@, [kind |-> k, name |-> n, fields |-> <<>>, ann |-> FALSE])]
@@ -251,6 +318,7 @@ AddAny == CASE Focus = "enums" -> AddEnum \/ AddEnumValue
             [] Focus = "typedefs" -> AddEnum \/ AddTypedef
             [] Focus = "annotations" -> AddMethod \/ AnnotateMethod
             [] Focus = "breaks" -> FALSE
+            [] Focus = "consts" -> AddLitConst \/ AddLitField
             [] Focus = "uses" -> AddArg \/ AddMethod \/ AddOp
             [] Focus = "fields" -> AddField \/ AddEnumDefaultField
             [] Focus = "enumrefs" -> \/ AddEnum \/ AddEnumValue \/ AddTypedef \/ AddStruct \/ AddField \/ AddEnumDefaultField \/ AddEnumConst
